@@ -108,6 +108,9 @@ func (v DenseIntVector) ReverseOrder() {
   }
 }
 func (v DenseIntVector) Slice(i, j int) Vector {
+  if j > len(v) {
+    panic(fmt.Errorf("slice [%d:%d] out of bounds for vector of dimension %d", i, j, len(v)))
+  }
   return v[i:j]
 }
 func (v DenseIntVector) Swap(i, j int) {
@@ -161,6 +164,9 @@ func (v DenseIntVector) ConstAt(i int) ConstScalar {
   return Int{&v[i]}
 }
 func (v DenseIntVector) ConstSlice(i, j int) ConstVector {
+  if j > len(v) {
+    panic(fmt.Errorf("slice [%d:%d] out of bounds for vector of dimension %d", i, j, len(v)))
+  }
   return v[i:j]
 }
 func (v DenseIntVector) AsConstMatrix(n, m int) ConstMatrix {
